@@ -3,6 +3,7 @@ package eio
 import (
 	"net/http"
 	"net/url"
+	"slices"
 	"time"
 
 	"github.com/karagenc/socket.io-go/engine.io/transport"
@@ -81,7 +82,9 @@ func dial(rawURL string, callbacks *Callbacks, config *ClientConfig, testWaitUpg
 
 	var transports []string
 	if len(config.Transports) > 0 {
-		transports = config.Transports
+		// The slice is re-sliced and rearranged later on (see `connect` and `maybeUpgrade`, which runs on its own goroutine).
+		// Work on a copy: the one in the config belongs to the caller, and it is used again for the next connection.
+		transports = slices.Clone(config.Transports)
 	} else {
 		transports = []string{"polling", "webtransport", "websocket"}
 	}
